@@ -174,6 +174,121 @@ def check_action_sibling(ctx, repo, rule):
                       'without points are then given the bounds of their neighbours' % (name, why[:80]), construct='%s bounds: %s' % (name, why[:80]))
 
 
+# oracle: de Boor's BSPLVN recurrence (A Practical Guide to Splines, ch. X), in this module's variable roles
+_RECUR_ORACLE = """
+vm = V[:, l] / (DP[:, l] + DM[:, j - l])
+V[:, l] = vm * DP[:, l] + vmprev
+vmprev = vm * DM[:, j - l]
+"""
+_DELTA_ORACLE = """
+DP[:, j] = K[ileft + j + 1] - x
+DM[:, j] = x - K[ileft - j]
+"""
+
+
+def _subst_single_defs(e, fa, keep):
+    """Copy of e in which names with exactly one plain (non-call) definition, other than the loop roles in `keep`, are replaced
+    by that definition.  Resolution is done on the original nodes (they carry the parent links the CFG lookup needs)."""
+    def sub(x, depth=0):
+        if isinstance(x, list):
+            return [sub(y, depth) for y in x]
+        if not isinstance(x, ast.AST):
+            return x
+        if isinstance(x, ast.Name) and isinstance(x.ctx, ast.Load) and x.id not in keep and depth < 6:
+            d = fa.resolve(x)
+            if d is not None and not isinstance(d, ast.Call):
+                return sub(d, depth + 1)
+        new = x.__class__()
+        for fld in x._fields:
+            if hasattr(x, fld):
+                setattr(new, fld, sub(getattr(x, fld), depth))
+        return new
+    return sub(e)
+
+
+def check_recurrence(ctx, repo, rule):
+    from ..astutil import canon
+    f = repo.func(BSPLINE, 'bspline.bsplvn')
+    fa = FA(f)
+    ctx.cover(f)
+    inner = [n for n in walk_local(f.node) if isinstance(n, ast.For) and any(isinstance(a, ast.While) for a in ancestors(n))]
+    ctx.need(len(inner) == 1, 'bsplvn: inner recurrence loop not found')
+    lp = inner[0]
+    stmts = [st for st in lp.body if isinstance(st, ast.Assign)]
+    ctx.need(len(stmts) == 3, 'bsplvn: the recurrence is not three assignments')
+    loopvars = {lp.target.id}
+    w = next(a for a in ancestors(lp) if isinstance(a, ast.While))
+    roles = {'vm', 'vmprev', 'j', lp.target.id, 'x', 'ileft'}
+    got = ast.Module(body=[ast.Assign(targets=st.targets, value=_subst_single_defs(st.value, fa, roles), lineno=0) for st in stmts], type_ignores=[])
+    want = ast.parse(_RECUR_ORACLE)
+    cg, _ = canon(got)
+    cw, _ = canon(want)
+    ctx.check(rule, cg == cw, f, stmts[0], 'bsplvn inner loop is the Cox-de Boor recurrence: term l divides by deltap[l] + deltam[j-l]',
+              msg='the basis recurrence in bsplvn differs from the Cox-de Boor form vm = B[l]/(dp[l] + dm[j-l]); B[l] = vm*dp[l] + prev; prev = vm*dm[j-l] '
+                  '(found: %s): on non-uniform knots the basis no longer sums to one' % '; '.join(src(x).replace('\n', ' ') for x in got.body)[:200],
+              construct='bsplvn recurrence: ' + '; '.join(src(x) for x in got.body)[:200])
+    deltas = [st for st in w.body if isinstance(st, ast.Assign) and isinstance(st.targets[0], ast.Subscript) and src(st.targets[0].value) in ('deltap', 'deltam')]
+    got2 = ast.Module(body=[ast.Assign(targets=st.targets, value=_subst_single_defs(st.value, fa, roles | {'bkpt'}), lineno=0) for st in deltas], type_ignores=[])
+    c2, _ = canon(got2)
+    w2, _ = canon(ast.parse(_DELTA_ORACLE))
+    ctx.check(rule, c2 == w2, f, deltas[0] if deltas else w, 'knot differences: deltap[j] = t[ileft+j+1] - x, deltam[j] = x - t[ileft-j]',
+              msg='the knot differences in bsplvn are not t[ileft+j+1] - x and x - t[ileft-j]', construct='bsplvn deltas: ' + '; '.join(src(x) for x in got2.body)[:160])
+
+
+def check_intrv(ctx, repo, rule):
+    f = repo.func(BSPLINE, 'bspline.intrv')
+    ctx.cover(f)
+    incs = [st for st in walk_local(f.node) if isinstance(st, ast.AugAssign) and src(st.target) == 'ileft' and isinstance(st.op, ast.Add)]
+    ctx.need(incs, 'intrv: interval advance not found')
+    for st in incs:
+        par = st._parent
+        ok = isinstance(par, ast.While) and 'x[i] > gb[ileft + 1]' in src(par.test) and 'ileft < n - 1' in src(par.test)
+        ctx.check(rule, ok, f, par if isinstance(par, (ast.While, ast.If)) else st,
+                  'intrv advances the interval index repeatedly (while x[i] > knot[ileft+1] and ileft < n-1)',
+                  msg='intrv advances the interval index under `%s %s`: a point that lies more than one breakpoint interval beyond the previous point is '
+                      'assigned the wrong interval' % (type(par).__name__.lower(), src(par.test)[:60] if hasattr(par, 'test') else ''),
+                  construct='interval advance under %s' % type(par).__name__)
+    store = [st for st in walk_local(f.node) if isinstance(st, ast.Assign) and src(st.targets[0]) == 'indx[i]']
+    ctx.check(rule, len(store) == 1 and src(store[0].value) == 'ileft' and not isinstance(store[0]._parent, ast.While), f, store[0] if store else f.node,
+              'every point receives the current interval index', msg='indx[i] is not assigned the current interval for every point', construct='indx store')
+
+
+def check_nbkpt(ctx, repo, rule):
+    f = repo.func(BSPLINE, 'bspline.__init__')
+    fa = FA(f)
+    n = 0
+    for st in walk_local(f.node):
+        if isinstance(st, ast.Assign) and src(st.targets[0]) == 'bkpt' and isinstance(st.value, (ast.BinOp, ast.Call)):
+            uses = [x for x in ast.walk(st.value) if isinstance(x, ast.Name) and x.id == 'nbkpts']
+            # also the spacing computed from nbkpts just before
+            for x in ast.walk(st.value):
+                if isinstance(x, ast.Name) and x.id == 'tempbkspace':
+                    d = fa.resolve(x)
+                    if d is not None:
+                        uses += [y for y in ast.walk(d) if isinstance(y, ast.Name) and y.id == 'nbkpts']
+            if not uses:
+                continue
+            n += 1
+            lows = []
+            for d, v in fa.defs(uses[0]):
+                if d is None or isinstance(d, ast.arg):
+                    lows.append(None)
+                elif v is not None and isinstance(v, ast.Call) and call_name(v) == 'max' and len(v.args) == 2:
+                    lows.append(max([try_fold(a) for a in v.args if isinstance(try_fold(a), int)] or [None], key=lambda q: -1 if q is None else q))
+                elif v is not None and isinstance(try_fold(v), int):
+                    lows.append(try_fold(v))
+                else:
+                    lows.append(None)
+            # the clamp idiom: an assignment nbkpts = 2 under `nbkpts < 2` among the reaching definitions covers the unbounded ones
+            clamp = any(isinstance(d, ast.Assign) and try_fold(d.value) == 2 and isinstance(d._parent, ast.If) and src(d._parent.test) in ('nbkpts < 2', 'nbkpts <= 1')
+                        for d, v in fa.defs(uses[0]) if d is not None)
+            ok = clamp or all(isinstance(l, int) and l >= 2 for l in lows)
+            ctx.check(rule, ok, f, st, 'breakpoint count used to place `bkpt` is clamped to >= 2 (lower bounds %s%s)' % (lows, ', clamp idiom' if clamp else ''),
+                      msg='the number of breakpoints used to build `%s` can be %s: with fewer than two breakpoints the knot vector cannot cover the data range'
+                          % (src(st.value)[:50], [l for l in lows if not (isinstance(l, int) and l >= 2)]), construct='breakpoint count lower bound %s' % lows)
+    return n
+
+
 # ------------------------------------------------------------------------------------------ C09
 
 def num_kind(e, fa, depth=0):
@@ -542,6 +657,9 @@ def check_iterfit_masks(ctx, repo):
         if okin:
             d = fa.deep(inm)
             okin = src(d) == 'maskwork' or src(inm) == 'maskwork'
+        if not okin:
+            # equivalent idiom: sticky=True with the working mask as outmask (djs_reject then ANDs the previous mask itself)
+            okin = try_fold(kw.get('sticky')) is True and src(kw.get('outmask')) == 'maskwork'
         ctx.check('C10.INMASK', okin, f, c, 'djs_reject receives the previous working mask as inmask (points rejected earlier never return)',
                   msg='djs_reject is called with inmask=%s, not the previous working mask' % (src(inm) if inm is not None else 'None'), construct='inmask argument')
         ctx.check('C10.INMASK', src(kw.get('outmask')) == 'maskwork' and src(kw.get('invvar')) == 'invwork' and [src(a) for a in c.args[:2]] == ['ywork', 'yfit'], f, c,
